@@ -537,6 +537,27 @@ func minimiseAndConfirm(r *RunResult, env *Env, scratch string) (string, int) {
 		final.Violation = nil
 		e = runScript(&final, env, known, scratch, "")
 		if !sameClass(e, target) {
+			// not even the original script shows it in this process: the violation may depend on what the worker process had
+			// executed before (state that outlives a run). The faithful replay is then the worker's whole history.
+			if len(r.Earlier) > 0 {
+				orig := s
+				orig.Violation = target
+				orig.TraceHash = ""
+				orig.Prelude = r.Earlier
+				_ = os.MkdirAll(filepath.Join(outDir(), "replays"), 0o755)
+				path := filepath.Join(outDir(), "replays", fmt.Sprintf("%s-%d-%s.json", target.Property, s.Seed, sanitize(target.Class)))
+				ob, _ := json.MarshalIndent(&orig, "", " ")
+				if err := os.WriteFile(path, ob, 0o644); err == nil {
+					self, _ := os.Executable()
+					for i := 0; i < 3; i++ {
+						outb, err := exec.Command(self, "replay", path).CombinedOutput()
+						if ee, ok := err.(*exec.ExitError); ok && ee.ExitCode() == 1 && (strings.Contains(string(outb), "REPLAY-OK") || strings.Contains(string(outb), "REPLAY-SAME-CLASS")) {
+							fmt.Printf("note: the violation reproduces in a fresh process only after the %d runs the worker had executed before it: it depends on process-global state that outlives a request\n", len(r.Earlier))
+							return path, 1
+						}
+					}
+				}
+			}
 			return r.ScriptPath, 2
 		}
 	}
